@@ -1,6 +1,6 @@
 (* C09 — the LRU cache behaves as a bounded least-recently-used map.  Statements only. *)
 From PGV Require Import Base.Bytes Spec.LRUSpec Model.LRU Proofs.LRUProofs Proofs.LRUTimeProofs Proofs.C09Final.
-From PGV Require Import Base.MiniGo Extracted.SourceFns Model.GoLRU Proofs.GoLRUProofs.
+From PGV Require Import Base.MiniGo Extracted.SourceFnsLRU Model.GoLRU Proofs.GoLRUProofs.
 Open Scope Z_scope.
 
 (* Every history of Store/Load/Delete/Len on a cache of capacity c >= 0: the model of cache.go
